@@ -2,7 +2,8 @@
    inputs, to the hand-written models the property theorems are stated about.  A source change that alters
    what one of these functions computes breaks the corresponding proof here (a broken proof obligation);
    a harmless rewrite that the translator still understands either keeps these proofs or needs them redone. *)
-From Coq Require Import ZArith Bool List Lia.
+From Coq Require Import ZArith Bool List Lia Setoid Morphisms.
+Import ListNotations.
 From SV Require Import Extracted.IntC Int.Model Int.Proofs Rs.Prelude.
 From SV Require Core.Slice Eq.Model.
 From SV Require Import Extracted.RsInline Extracted.RsBig Extracted.RsInt Extracted.RsIndex Extracted.RsConv Extracted.RsMix
@@ -552,6 +553,67 @@ Proof.
           try lia; cbn [orb andb]; try reflexivity.
         rewrite !cast_u64_small by lia. rewrite Z.abs_neq by lia. destruct (Z.eqb_spec (- st) 0); [lia|]. reflexivity.
     + destruct (Z.ltb_spec hi x); destruct (Z.leb_spec x lo); try lia; reflexivity.
+Qed.
+
+(* range == range: decides equality of the two arithmetic progressions *)
+Definition range_seq (lo st : Z) (n : nat) : list Z := map (fun k => lo + Z.of_nat k * st) (seq 0 n).
+
+Lemma range_seq_eq lo1 st1 lo2 st2 n1 n2 :
+  range_seq lo1 st1 n1 = range_seq lo2 st2 n2 <->
+  n1 = n2 /\ (n1 = O \/ (lo1 = lo2 /\ (n1 = 1%nat \/ st1 = st2))).
+Proof.
+  unfold range_seq. split.
+  - intros H. assert (L : n1 = n2).
+    { apply (f_equal (@length Z)) in H. rewrite !map_length, !seq_length in H. exact H. }
+    subst n2. split; [reflexivity|]. destruct n1 as [|[|n]]; [left; reflexivity| |].
+    + right. change (seq 0 1) with [0%nat] in H. cbn [map] in H. injection H as H. change (Z.of_nat 0) with 0 in H.
+      split; [lia|left; reflexivity].
+    + right. change (seq 0 (S (S n))) with (0%nat :: 1%nat :: seq 2 n) in H. rewrite !map_cons in H.
+      pose proof (f_equal (@hd Z 0) H) as H0. pose proof (f_equal (fun l => hd 0 (tl l)) H) as H1.
+      cbn [hd tl] in H0, H1. change (Z.of_nat 0) with 0 in H0. change (Z.of_nat 1) with 1 in H1.
+      split; [lia|right; lia].
+  - intros [-> [->|[-> [->| ->]]]]; reflexivity.
+Qed.
+
+Theorem rs_range_equals_spec lo1 hi1 st1 lo2 hi2 st2 :
+  i32b lo1 -> i32b hi1 -> i32b st1 -> st1 <> 0 -> i32b lo2 -> i32b hi2 -> i32b st2 -> st2 <> 0 ->
+  let n1 := SV.Core.Values.range_len lo1 hi1 st1 in
+  let n2 := SV.Core.Values.range_len lo2 hi2 st2 in
+  n1 <= 2147483647 -> n2 <= 2147483647 ->
+  exists b, rs_range_equals_range {| f_start := lo1; f_stop := hi1; f_step := st1 |}
+                                  {| f_start := lo2; f_stop := hi2; f_step := st2 |} = ROk b /\
+            (b = true <-> range_seq lo1 st1 (Z.to_nat n1) = range_seq lo2 st2 (Z.to_nat n2)).
+Proof.
+  intros A1 A2 A3 A4 B1 B2 B3 B4 n1 n2 L1 L2.
+  assert (P1 : 0 <= n1).
+  { unfold n1, SV.Core.Values.range_len. repeat match goal with |- context [?a <? ?b] => destruct (Z.ltb_spec a b) end;
+      try lia; apply Z.div_pos; lia. }
+  assert (P2 : 0 <= n2).
+  { unfold n2, SV.Core.Values.range_len. repeat match goal with |- context [?a <? ?b] => destruct (Z.ltb_spec a b) end;
+      try lia; apply Z.div_pos; lia. }
+  unfold rs_range_equals_range. rewrite (rs_range_length_eq _ _ _ A1 A2 A3 A4), (rs_range_length_eq _ _ _ B1 B2 B3 B4).
+  cbv zeta. fold n1 n2. destruct (Z.leb_spec n1 2147483647) as [_|Hx]; [|lia]. destruct (Z.leb_spec n2 2147483647) as [_|Hx]; [|lia].
+  cbn [rbind f_start f_step]. unfold rs_neb, rs_eqb, rseq_Z, m_get. setoid_rewrite range_seq_eq.
+  destruct (Z.eqb_spec n1 0) as [E1|E1]; [|destruct (Z.eqb_spec n2 0) as [E2|E2]]; cbn [orb].
+  - eexists; split; [reflexivity|]. rewrite E1. destruct (Z.eqb_spec 0 n2) as [E|E].
+    + rewrite <- E. cbn. split; [intros _; split; [reflexivity|left; reflexivity]|reflexivity].
+    + split; [discriminate|]. intros [H _]. cbn in H. lia.
+  - eexists; split; [reflexivity|]. rewrite E2. destruct (Z.eqb_spec n1 0); [lia|].
+    split; [discriminate|]. intros [H _]. cbn in H. lia.
+  - destruct (Z.eqb_spec lo1 lo2) as [El|El]; cbn [negb].
+    + destruct (Z.eqb_spec n1 1) as [F1|F1]; [|destruct (Z.eqb_spec n2 1) as [F2|F2]]; cbn [orb].
+      * eexists; split; [reflexivity|]. rewrite F1. destruct (Z.eqb_spec 1 n2) as [E|E].
+        -- rewrite <- E. split; [intros _|reflexivity]. split; [reflexivity|right; split; [exact El|left; reflexivity]].
+        -- split; [discriminate|]. intros [H _]. change (Z.to_nat 1) with 1%nat in H. lia.
+      * eexists; split; [reflexivity|]. rewrite F2. destruct (Z.eqb_spec n1 1); [lia|].
+        split; [discriminate|]. intros [H _]. change (Z.to_nat 1) with 1%nat in H. lia.
+      * destruct (Z.eqb_spec st1 st2) as [Es|Es].
+        -- eexists; split; [reflexivity|]. destruct (Z.eqb_spec n1 n2) as [E|E].
+           ++ split; [intros _|reflexivity]. split; [rewrite E; reflexivity|right; split; [exact El|right; exact Es]].
+           ++ split; [discriminate|]. intros [H _]. lia.
+        -- eexists; split; [reflexivity|]. split; [discriminate|].
+           intros [_ [H|[_ [H|H]]]]; [lia| |contradiction]. change 1%nat with (Z.to_nat 1) in H. lia.
+    + eexists; split; [reflexivity|]. split; [discriminate|]. intros [_ [H|[H _]]]; [lia|contradiction].
 Qed.
 
 (* ---- the property statements of C10, about the functions as translated from the source ---------- *)
